@@ -67,6 +67,10 @@ void ares_cancel(ares_channel_t *channel)
       query                   = ares_llist_node_claim(node);
       query->node_all_queries = NULL;
 
+      /* Unlink from the connection, timeout and id indexes too, the callback
+       * may start requests whose failure would otherwise requeue this query */
+      ares_detach_query(query);
+
       /* NOTE: its possible this may enqueue new queries */
       query->callback(query->arg, ARES_ECANCELLED, 0, NULL);
       ares_free_query(query);
